@@ -104,9 +104,12 @@ func (maps *trackedMaps) trackMap(tm *tMap) error {
 			if maps.tracked == nil {
 				maps.tracked = make(map[uintptr]*tMap)
 			}
-			// we may need to check for kind.Ptr and then set tm = tm.Elem() but
-			// for now it's not required.
+			// a map is identified by its own address, also when it was reached
+			// through a pointer (the pointer's value is the address of a variable)
 			ptr := tm.value.Pointer()
+			if isMapPtr {
+				ptr = tm.value.Elem().Pointer()
+			}
 
 			// are we tracking this map already?
 			if _, ok := maps.tracked[ptr]; ok {
@@ -357,13 +360,15 @@ func (maps *trackedMaps) trackTaggable(taggable Taggable, pointer string) error 
 
 	case taggableMap:
 		// the path just pointed at a field within taggable
-		ptr := reflect.ValueOf(taggable).Pointer()
+		v := reflect.ValueOf(taggable)
+		ptr := v.Pointer()
+		if v.Kind() == reflect.Ptr && v.Elem().Kind() == reflect.Map {
+			// a pointer to a taggable map: the map is tracked by its own address
+			ptr = v.Elem().Pointer()
+		}
 
 		// Are we already tracking this map?
 		if _, ok := maps.getTracked(ptr); !ok {
-			v := reflect.ValueOf(taggable)
-			// not sure if we need to worry if v.Kind() is a reflect.Ptr and
-			// then get the elem... so for now, I'm going to skip that.
 			tmap := &tMap{
 				value:          v,
 				filteredFields: map[string]struct{}{},
